@@ -17,6 +17,14 @@ func monitorC03(tr *Trace) (key, msg string) {
 	complete := [2]bool{f.completed(tr, Client), f.completed(tr, Server)}
 	// --- clause 2: no trust / effective cancel => neither side ever completes
 	trustGiven := f.Granted[Server] >= 0
+	// trusted from the start (paired or auto accept, never changed): trust is given whether or not the
+	// server ever got as far as asking for it
+	trustBeforehand := (cfg.Paired[Server] || cfg.AutoAccept[Server]) && approveNotNeeded(tr, f)
+	for _, st := range tr.Steps {
+		if st.Executed && st.Ev.K == EvCancel {
+			trustBeforehand = false // a cancel withdraws the trust, whatever state the connection is in
+		}
+	}
 	cancelled := false
 	for s := 0; s < 2; s++ {
 		if c := f.Cancelled[s]; c >= 0 && !trustedState(f.lastStateBefore(tr, s, c)) {
@@ -43,7 +51,7 @@ func monitorC03(tr *Trace) (key, msg string) {
 			tr.SettleRounds, tr.Stable[0].State, open[0], complete[0], tr.Stable[1].State, open[1], complete[1])
 	}
 	// --- clause 1: timely + trust (+ waiting allowed where a side has to wait) => both complete, exactly once
-	if tr.Script.Timely && trustGiven && !cancelled && expectCompletion(tr, f) {
+	if tr.Script.Timely && !cancelled && ((trustGiven && expectCompletion(tr, f)) || (trustBeforehand && f.Cancelled[Client] < 0 && f.Cancelled[Server] < 0)) {
 		if !bothDone {
 			return "C03/not-completed", fmt.Sprintf("trust was given and all messages were delivered in time, but: client state %d (completed=%v), server state %d (completed=%v); first error: %s",
 				tr.Stable[0].State, complete[0], tr.Stable[1].State, complete[1], firstError(tr))
